@@ -136,6 +136,10 @@ def _groupby_slice_transform(
     # shuffling, which makes everything aligned already
     dropna = {"dropna": dropna} if dropna is not None else {}
     observed = {"observed": observed} if observed is not None else {}
+    if len(df) == 0:
+        # ``apply`` stands in for ``transform`` below: it must not report the
+        # unobserved categories, the transform of no rows has no rows
+        observed = {"observed": True}
     g = df.groupby(grouper, group_keys=group_keys, **observed, **dropna)
     if key:
         g = g[key]
